@@ -191,9 +191,12 @@ impl<M: EntityMatcher> TryFrom<&config::FieldMatcher> for MatchAndExpr<M> {
     type Error = ImportError;
 
     fn try_from(from: &config::FieldMatcher) -> Result<Self, ImportError> {
-        let matchers: Result<Vec<M>, _> = from
-            .fields
-            .iter()
+        // fields are stored in a HashMap, apply them in a fixed order so that
+        // the result doesn't depend on the hash seed when several fields capture.
+        let mut fields: Vec<(&config::RewriteField, &String)> = from.fields.iter().collect();
+        fields.sort_by_key(|(fd, _)| fd.to_string());
+        let matchers: Result<Vec<M>, _> = fields
+            .into_iter()
             .map(|(fd, v)| (*fd, v.as_str()).try_into())
             .collect();
         let matchers = matchers?;
